@@ -1045,8 +1045,8 @@ def rule_flags_only_comments(cm, rep, rid):
             if isinstance(s, ast.If) and re.search(r'debug_\w+', norm(s.test)):
                 n += 1
                 key = '%s:if %s' % (f.qname, norm(s.test))
-                if f.name == 'generate' and all(isinstance(b, ast.Assign) for b in s.body + s.orelse):
-                    rep.ok(rid, key, 'header alternatives (compared below)', f.loc(s))
+                if f.name == 'generate' and f.cls is not None and f.cls.name.endswith('CodeGenerator') and 'debug_filename' in norm(s.test):
+                    rep.ok(rid, key, 'header alternatives of the emitter entry (the two outputs are compared below)', f.loc(s))
                     continue
                 parent_body = getattr(getattr(s, '_parent', None), 'body', [])
                 guard = (len(s.body) == 1 and isinstance(s.body[0], ast.Return) and not s.orelse and s in f.node.body and
